@@ -1,8 +1,8 @@
 (* model_oracle corrupt: runs the extracted traversals of coq/Robust/RobustModel.v on the graph the C++
    oracle dumped after loading a (corrupted) file and prints the digests the battery prints.
-   Parsing, hashing and the search for certificates (a rank function / a closed set) are glue;
-   the certificates themselves are checked by the extracted checkers rg_rank_ok / rg_closed_ok /
-   rb_pclosed_ok, whose soundness is proved in RobustProofs.v. *)
+   Parsing and hashing are glue. The driver also reports whether the graph belongs to the input class of
+   the two repaired defects (a cycle of before-parent calls of SortCollision / a cycle of node parents):
+   the cycle is searched here and CHECKED by the extracted rg_closed_ok / rb_pclosed_ok. *)
 open Model
 open Conv
 
@@ -127,12 +127,11 @@ let c15_run (c : case) : string =
       end in
     go f [] in
   let diverging = List.filter (fun f ->
-    let m = rg_to_global (nat_of_int (n + 2)) g (n_of_int f) in
-    match walk f, m with
-    | Some cset, OutOfFuel ->
+    match walk f, rg_to_global (nat_of_int (n + 1)) g (n_of_int f) with
+    | Some cset, Ok _ ->
       if rb_pclosed_ok nc (List.map n_of_int cset) then true else failwith "MODELBUG pclosed"
     | None, Ok _ -> false
-    | _ -> failwith "MODELBUG to_global") firsts in
+    | _ -> failwith "MODELBUG to_global is total") firsts in
   let kids =
     List.fold_left (fun a b ->
       if rs_node b then
@@ -140,8 +139,9 @@ let c15_run (c : case) : string =
           + c15_count (rb_has g rs_shape) b.rs_childrefs
       else a) 0 g
     + (if root = c15_npos then 0 else c15_count (rb_has g rs_node) arr.(int_of_n root).rs_childrefs) in
-  put "nd" (Printf.sprintf "%d,%d,%d" nnodes (List.length firsts - List.length diverging) kids);
-  put "ntgd" (String.concat "," (List.map string_of_int diverging));
+  put "nd" (Printf.sprintf "%d,%d,%d" nnodes (List.length firsts) kids);
+  (* first-node ids whose parent chain runs into a cycle (the class of the repaired hang) *)
+  put "pcyc" (String.concat "," (List.map string_of_int diverging));
   (* DeleteUnreferencedBlocks<NiObject>(root) *)
   (if unk then put "du" (Printf.sprintf "0/%d" n)
    else match rb_prune (nat_of_int (n + 1)) h root with
@@ -150,12 +150,11 @@ let c15_run (c : case) : string =
   (* the sorter *)
   let fuel = rb_sort_fuel g in
   let sorted = rg_pretty_sort fuel g ob unk in
-  let cert =
+  let cyc =
     match c15_ranks n (c15_pre_targets arr n) with
-    | Result.Ok rank ->
-      if rg_rank_ok g (List.map n_of_int (Array.to_list rank)) then "rank" else failwith "MODELBUG rank"
+    | Result.Ok _ -> "-"
     | Result.Error cyc ->
-      if rg_closed_ok g (List.map n_of_int cyc) then "cycle:" ^ String.concat "." (List.map string_of_int cyc)
+      if rg_closed_ok g (List.map n_of_int cyc) then String.concat "." (List.map string_of_int cyc)
       else failwith "MODELBUG closed" in
   (match sorted with
    | Ok order ->
@@ -164,12 +163,11 @@ let c15_run (c : case) : string =
          let ci = if rs_node b then List.filteri (fun k _ -> k < int_of_n b.rs_npre) b.rs_children else b.rs_children in
          let hacc = List.fold_left (fun hh v -> c15_hash_add hh (int_of_n v)) hacc (rg_remap order ci) in
          c15_hash_add hacc (List.fold_left (fun a v -> a + int_of_n v) 0 (rg_remap order b.rs_ptrs))) 7 g in
-     put "so" (Printf.sprintf "%d/%d/%d" n (c15_hash (List.map int_of_n order)) refs_hash);
-     put "sortv" ("T:" ^ (if cert = "rank" then "rank" else "run," ^ cert))
-   | OutOfFuel ->
-     if cert = "rank" then failwith "MODELBUG ranked graph ran out of fuel";
-     put "so" "-"; put "sortv" ("D:" ^ cert)
-   | Fault -> put "so" "FAULT"; put "sortv" "F");
+     put "so" (Printf.sprintf "%d/%d/%d" n (c15_hash (List.map int_of_n order)) refs_hash)
+   | OutOfFuel -> failwith "MODELBUG pretty_sort is total"
+   | Fault -> failwith "MODELBUG pretty_sort never faults");
+  (* a cycle of before-parent calls of SortCollision (the class of the repaired stack overflow) *)
+  put "cyc" cyc;
   Buffer.contents buf
 
 let main () =
